@@ -203,7 +203,7 @@ Proof. split; reflexivity. Qed.
    Spec.spec_star_outcome demands - named binding and tuple equal (the i-th surplus positional through the chain of the
    i-th remaining Parameter, then the defaults of the Parameters without value, a positional beyond the last Parameter
    unchanged when not strict), or one of the demanded exceptions and no body.
-   Still excluded (C12_gate_partial / C12_strict_partial say s_varpos sg = false): star-args functions OUTSIDE that use -
+   Not claimed (C12_gate_partial / C12_strict_partial say s_varpos sg = false): star-args functions OUTSIDE that use -
    keyword arguments or KWARGS modes together with star-args, methods, keyword-only parameters, Parameters declared out of
    order (there the arrival order of the values decides, pinned by test_return_as_args_advanced_different_order) and a
    var-positional parameter not spelled `args`; the model covers all but the last and is compared with the
@@ -231,6 +231,30 @@ Theorem C12_strict_varargs : forall value is_none sg env dc c is_async,
              exists e pn, snd (vrun is_none sg env dc is_async c) = FRaise e pn /\ raise_allowed e pn rs.
 Proof. intros. rewrite vrun_ref. now apply strict_star. Qed.
 Print Assumptions C12_strict_varargs.
+
+(* OUTSIDE THAT USE THE GATE IS FALSE for star-args functions under return_as=ARGS (open finding C12-K6): the values are passed
+   positionally in their order of ARRIVAL (keywords first, then the bound positionals, then defaults in declaration order),
+   so a keyword argument - or a Parameter without value declared out of signature order - shifts them to other parameters.
+   Parameters x / at most 1 and y / at most 10 on g with parameters x, y and star-args: g(1, y=5) runs the body with
+   x=5, y=1 - the 5 never passed the chain of x (the repository pins this order: test_return_as_args_advanced_different_order) *)
+Theorem C12_gate_varargs_refuted : exists sg env dc is_async c j b star,
+  s_varpos sg = true /\ spec_star_domain nat sg dc c = false /\ self_guard nat sg dc c = true /\
+  vrun nnone sg env dc is_async c = (j, FBodyStar b star) /\ In (1, 5) b /\ ~ origin nat nnone sg dc c 1 5.
+Proof.
+  exists (va_sig [1; 2]), no_env,
+    {| d_params := [mkparam 1 [at_most 1] true None; mkparam 2 [at_most 10] true None]; d_mode := ARGS; d_strict := true;
+       d_ignore_input := false |}, false, {| c_args := [1]; c_kwargs := [(2, 5)] |}, [(2, 0, 5); (1, 0, 1)], [(1, 5); (2, 1)], [].
+  repeat split; try reflexivity.
+  - now left.
+  - intro H. destruct H as [p w Ip Hn [_ G] S|p w Ip Hn Abs _ _|p Ip Hn Abs _|sp Isp Hn D _|Dcl _ _].
+    + destruct Ip as [<-|[<-|[]]]; [|discriminate Hn]. cbn in G. destruct G as [G|[G|[]]]; [discriminate G|].
+      injection G as <-. vm_compute in S. discriminate S.
+    + apply (Abs 1). split; [reflexivity | right; now left].
+    + apply (Abs 1). split; [reflexivity | right; now left].
+    + destruct Isp as [<-|[<-|[]]]; discriminate D.
+    + discriminate Dcl.
+Qed.
+Print Assumptions C12_gate_varargs_refuted.
 
 (* ANY REJECTION RAISES BEFORE THE BODY.  A value the caller passes for a declared Parameter that does not pass
    the chain (rejected at any position, or a foreign exception in a validator): the body does not run *)
@@ -333,6 +357,18 @@ Proof.
   - intro. eapply strict_too_many; eassumption.
 Qed.
 Print Assumptions C12_strict_partial.
+
+(* more positionals than positional parameters on a function without star-args.  The property text demands TooManyArguments for
+   "an argument without declared Parameter"; such a positional has not even a parameter: the wrapper raises ValidateException,
+   the BASE class of TooManyArguments (signature.bind_partial fails first), and the body does not run.  The class is the
+   base class, not TooManyArguments itself: open finding C12-K7 *)
+Theorem C12_too_many_positionals : forall value is_none sg env dc is_async c,
+  s_varpos sg = false ->
+  d_ignore_input dc = false -> List.length (pos_params value sg) < List.length (c_args c) ->
+  (forall kw, In kw (c_kwargs c) -> exists v, snd (step_m value is_none dc false (fst kw) (snd kw)) = WOk v) ->
+  snd (vrun is_none sg env dc is_async c) = FRaise ValidateExceptionC None /\ derives TooManyArgumentsC ValidateExceptionC = true.
+Proof. intros. rewrite vrun_ref. split; [eapply too_many_positionals; eauto | reflexivity]. Qed.
+Print Assumptions C12_too_many_positionals.
 
 (* REQUIRED / NONE / MISSING.  None for a required Parameter: its exception with the name, no validator called;
    None for a non-required Parameter passes unvalidated (no validator called); a Parameter without value from
